@@ -127,6 +127,9 @@ Definition run (c : list (nat * beh) * list (checker * nat) * nat) : string :=
 # ----------------------------------------------------------------------------------------------------------------------
 # rendering to adaptix
 
+SIBLING = [(("other", (0, 1, 2, 3), 0), ("answer", 39), 450)]     # a catch-all provider that only a sibling retort gets
+
+
 class World:
     def __init__(self):
         self.types, self.abase = make_types()
@@ -215,12 +218,26 @@ class World:
         new, inst, cls2, cls1 = segments
         self.log.clear()
         mk = lambda rec: [self.provider(i) for i in rec]  # noqa: E731
-        R1 = type("R1", (Retort,), {"recipe": mk(cls1)})
-        R2 = type("R2", (R1,), {"recipe": mk(cls2)})
-        retort = R2(recipe=mk(inst))
-        if new or variant % 2:
-            retort = retort.extend(recipe=mk(new))
-        if variant >= 2:
+        # variant: bit 0 = extend even with nothing to add, bit 1 = replace() twice, bits 2-3 = how the recipes are spelled
+        # (any Iterable[Provider] is allowed: list, tuple, one-shot iterator, generator), bit 4 = siblings are derived
+        # from the same base first (extend with a catch-all provider, replace) and thrown away
+        form = (variant >> 2) & 3
+        spell = [list, tuple, iter, lambda l: (x for x in l)][form]
+        R1 = type("R1", (Retort,), {"recipe": spell(mk(cls1))})
+        R2 = type("R2", (R1,), {"recipe": spell(mk(cls2))})
+        retort = R2(recipe=spell(mk(inst)))
+        if variant & 16:
+            sib = retort.extend(recipe=spell(mk(SIBLING)))
+            sib.replace(strict_coercion=False)
+            if variant & 1:
+                try:
+                    sib.get_loader(self.types[req])
+                except Exception:  # noqa: BLE001
+                    pass
+            self.log.clear()
+        if new or variant & 1:
+            retort = retort.extend(recipe=spell(mk(new)))
+        if variant & 2:
             retort = retort.replace(strict_coercion=False).replace(strict_coercion=True)
         # nested retorts log into the same list; only the outer recipe's ids (< 500) belong to the outer trace
         try:
@@ -362,7 +379,7 @@ def run(rep, tier, seed):
         rec = gen_recipe(r, total)
         cuts = sorted(r.randint(0, total) for _ in range(3))
         segs = (rec[:cuts[0]], rec[cuts[0]:cuts[1]], rec[cuts[1]:cuts[2]], rec[cuts[2]:])
-        cases.append((segs, r.randrange(NT), r.randrange(4)))
+        cases.append((segs, r.randrange(NT), r.randrange(32)))
     # exhaustive block: all recipes of length <= L over a small alphabet, all requests among {T0, T1}
     alpha_c = [("exact", 0), ("exact", 1), ("other", (0, 1, 2, 3), 0), ("other", (), 0)]
     alpha_b = [("answer", 1), ("decline",), ("first", 2)]
